@@ -19,10 +19,10 @@ const (
 	pInputCh   = "asyncProducer.input"
 )
 
-func (p *Program) evEmit() Ev   { return SendOn(FieldLoad(pErrorsCh, pSuccessCh), nil) }
-func (p *Program) evDone() Ev   { return p.WG("Done", pInFlight) }
-func (p *Program) evAdd() Ev    { return p.WG("Add", pInFlight) }
-func (p *Program) evWait() Ev   { return p.WG("Wait", pInFlight) }
+func (p *Program) evEmit() Ev { return SendOn(FieldLoad(pErrorsCh, pSuccessCh), nil) }
+func (p *Program) evDone() Ev { return p.WG("Done", pInFlight) }
+func (p *Program) evAdd() Ev  { return p.WG("Add", pInFlight) }
+func (p *Program) evWait() Ev { return p.WG("Wait", pInFlight) }
 
 // msgParamIdx: index in fn.Params of the first *ProducerMessage parameter, -1 if none.
 func msgParamIdx(fn *ssa.Function) int {
@@ -223,7 +223,7 @@ func c01Emit(c *Ctx) {
 func c01Partial(c *Ctx) {
 	p := c.P
 	c.Doc("C01.partial", "in every loop over a []*ProducerMessage whose body hands the loop element to a disposer (returnError/retryMessage/…, computed as a fixed point), no path from the disposal leaves the loop: otherwise the rest of the batch never gets an outcome")
-	c.Floor("C01.partial", 4)
+	c.Floor("C01.partial", 3)
 	d := p.disposers()
 	if _, ok := d["asyncProducer.returnError"]; !ok {
 		c.Unresolved("C01.partial", "asyncProducer.returnError is not recognised as a disposer")
@@ -859,12 +859,8 @@ func c01Loops(c *Ctx) {
 				r2.Starts = append(r2.Starts, a.After())
 			}
 			counted := Cmp{token.NEQ, FieldLoadOf("ProducerMessage.retries", isMsg), ConstInt(0)}
-			for b := range reg.Allowed {
-				for _, s := range b.Succs {
-					if Establishes(b, s, counted) {
-						r2.Starts = append(r2.Starts, Pt{s, 0})
-					}
-				}
+			for _, e := range reg.EstablishingEdges(counted) {
+				r2.Starts = append(r2.Starts, Pt{e.To, 0})
 			}
 		}
 		esc, path := r2.Escape(dispose)
